@@ -9,10 +9,12 @@ def camp(profile, q, t):
     return {'profile': profile, 'n_quick': q, 'n_thorough': t}
 
 PROPS = {}
+HOOK_COMMITS = ['bda95c1', '20cf912']
 LEDGER_THMS = ['Minter.balanced_preserves', 'Minter.planOf_balanced', 'Minter.Move.balanced', 'Minter.checked_holdings', 'Minter.checked_volume', 'Minter.checked_side']
 MODEL_NOTE = 'Theorems are about the Lean model (MinterModel); transaction types not yet in the model are listed in DESIGN.md and are covered only by the monitors evaluated on the real node'
 PROPS['C01'] = {
     'level': 'proof',
+    'modules': ['MinterProofs.Props.C01'],
     'theorems': LEDGER_THMS + ['Minter.C01_deliver_conserves', 'Minter.C01_block_body_conserves'],
     'campaigns': [camp('ledger', 16, 200), camp('orders', 8, 100), camp('staking', 8, 100)],
     'mismatch_counts': True,
@@ -25,6 +27,7 @@ PROPS['C02'] = {
 }
 PROPS['C03'] = {
     'level': 'proof',
+    'modules': ['MinterProofs.Props.C04'],
     'theorems': ['Minter.C03_reject_fee_only', 'Minter.C04_nonce_effect', 'Minter.prologue_ne_zero'],
     'campaigns': [camp('malformed', 16, 200), camp('ledger', 8, 100)],
     'mismatch_counts': True,
@@ -32,6 +35,7 @@ PROPS['C03'] = {
 }
 PROPS['C04'] = {
     'level': 'proof',
+    'modules': ['MinterProofs.Props.C04'],
     'theorems': ['Minter.C04_accept_in_order', 'Minter.C04_nonce_effect', 'Minter.C04_replay_rejected', 'Minter.prologue_none'],
     'campaigns': [camp('malformed', 16, 200), camp('mixed', 8, 100)],
     'mismatch_counts': True,
@@ -39,6 +43,7 @@ PROPS['C04'] = {
 }
 PROPS['C05'] = {
     'level': 'proof',
+    'modules': ['MinterProofs.Props.C05'],
     'theorems': ['Minter.C05_balance_only_sender', 'Minter.C05_moves_need_authorization', 'Minter.move_debit_guard', 'Minter.deliver_moves_guarded'],
     'campaigns': [camp('malformed', 16, 200), camp('mixed', 8, 100)],
     'mismatch_counts': True,
@@ -52,7 +57,7 @@ PROPS['C07'] = {
 }
 
 PROPS['C09'] = {'level': 'proof', 'theorems': [], 'campaigns': [camp('mixed', 16, 200), camp('staking', 8, 100), camp('orders', 8, 100)]}
-PROPS['C13'] = {'level': 'proof', 'theorems': [], 'campaigns': [camp('orders', 24, 200)]}
+PROPS['C13'] = {'level': 'proof', 'modules': ['MinterProofs.Props.C13'], 'theorems': ['Minter.buyForSell_K', 'Minter.sellForBuy_K', 'Minter.checkSwap_sound', 'Minter.burn_le_share', 'Minter.mint_then_burn_le', 'Minter.startingSupply_sq'], 'campaigns': [camp('orders', 16, 200)], 'modes': [{'mode': 'kernels', 'args': ['-seed', '{seed}', '-n', '{n:3000:60000}', '-driver', '{driver}', '-keep', '{keep}']}]}
 PROPS['C14'] = {'level': 'proof', 'theorems': [], 'campaigns': [camp('orders', 24, 200)]}
 PROPS['C16'] = {'level': 'proof', 'theorems': [], 'campaigns': [camp('staking', 24, 200), camp('ledger', 8, 100)]}
 PROPS['C17'] = {'level': 'proof', 'theorems': [], 'campaigns': [camp('staking', 24, 200)]}
@@ -63,6 +68,26 @@ PROPS['C20'] = {'level': 'proof', 'theorems': [], 'campaigns': [camp('governance
 for _p in ['C06','C15','C22','C27']:
     PROPS[_p] = {'level': 'proof', 'theorems': [], 'campaigns': [camp('checktx', 12, 100), camp('orders', 12, 100), camp('ledger', 8, 100)]}
 
-PROPS['C08'] = {'level': 'proof', 'theorems': [], 'modes': [{'mode': 'determinism', 'args': ['-profile', 'mixed', '-seed', '{seed}', '-n', '4', '-tier', '{tier}', '-keep', '{keep}']}]}
+PROPS['C08'] = {'level': 'proof', 'modules': ['MinterProofs.Props.C08'], 'theorems': ['Minter.C08_commit_perm_invariant', 'Minter.C08_accumulate_perm_invariant', 'Minter.C08_rank_perm_invariant', 'Minter.C08_range_sites_safe', 'Minter.C08_commit_call_order'], 'modes': [{'mode': 'determinism', 'args': ['-profile', 'mixed', '-seed', '{seed}', '-n', '4', '-tier', '{tier}', '-keep', '{keep}']}]}
 PROPS['C09']['modes'] = [{'mode': 'restart', 'args': ['-profile', 'mixed', '-seed', '{seed}', '-n', '6', '-tier', '{tier}', '-keep', '{keep}']}]
 PROPS['C11'] = {'level': 'proof', 'theorems': [], 'modes': [{'mode': 'export', 'args': ['-profile', 'mixed', '-seed', '{seed}', '-n', '16', '-tier', '{tier}', '-keep', '{keep}']}]}
+
+
+# ---------------------------------------------------------------------------------------------------------------
+# What is claimed (MANIFEST.json is generated from this by tools/gen_manifest.py)
+CLAIMS = {
+ 'C01': "Lean theorems: every plan the model's DeliverTx can produce is built from value moves that are balanced by construction (Move.balanced, planOf_balanced), and checked application of a balanced plan preserves volume=holdings for every custom coin and the base-coin total up to recorded emission (balanced_preserves, C01_deliver_conserves, C01_block_body_conserves); for all states, transactions and oracle answers. Tie: model executed next to the real node on generated histories; monitors volumesOk/baseDeltaOk (the same Lean definitions) evaluated on the node's export at every commit.",
+ 'C03': "Lean theorems C03_reject_fee_only and C04_nonce_effect: a rejected DeliverTx makes fee moves only and leaves every nonce unchanged; an accepted one bumps exactly the sender's nonce by one. Monitors on the node: after every rejected DeliverTx the live projection may only change in the fee coin for the payer/burn address/pool/reserve.",
+ 'C04': "Lean theorems C04_accept_in_order, C04_nonce_effect, C04_replay_rejected: accepted => nonce = stored+1 and chain id matches; any transaction whose nonce is not above the stored one is rejected by the prologue with no moves (state unchanged). Monitors on the node check the same on every delivered transaction incl. replays of earlier bytes.",
+ 'C05': "Lean theorems C05_balance_only_sender / C05_moves_need_authorization / move_debit_guard: no DeliverTx outcome lowers the balance of an account other than its sender, and moves happen only after the signature policy (single signature or distinct multisig owners reaching the threshold) passed. Monitors on the node: every balance/stake/waitlist decrease during a DeliverTx must belong to the sender (or the check issuer for RedeemCheck).",
+ 'C08': "Lean theorems: the tree-write sequence of a module commit, commutative accumulations and the candidate ranking are invariant under any permutation of the map iteration (C08_commit_perm_invariant, C08_accumulate_perm_invariant, C08_rank_perm_invariant, for all inputs); regenerated obligation C08_range_sites_safe: every range-over-map loop found in the CURRENT source of the state-mutating packages (go/types extractor, rerun whenever the tree changes) matches an order-insensitive pattern or a reviewed site; C08_commit_call_order pins the persistence call order of Blockchain.Commit. Tie/search: the same generated history executed by three separate processes (GOMAXPROCS 1/4/16, GOGC 10/100/off; Go reseeds map iteration per process), all responses, tags and app hashes compared line by line. Partial: goroutine scheduling and IAVL/goleveldb internals are exercised, not modelled.",
+ 'C13': "Lean theorems about the pool kernels (the definitions the driver executes against the real PairV2 functions): buyForSell_K / sellForBuy_K (every quoted trade leaves the fee-adjusted and the plain reserve product no smaller, output strictly inside the reserve), checkSwap_sound, burn_le_share, mint_then_burn_le, startingSupply_sq; for all reserves and amounts. Tie: kernel correspondence (real CalculateBuyForSell/SellForBuy/CheckSwap/CalculateAddLiquidity/Amounts/startingSupply/commission roundings vs the Lean definitions on generated inputs incl. boundary shapes) + node-level orders campaign with the conservation monitors. Trades that cross limit orders are bound by the node-level monitors until the order-matching model lands (stated partial).",
+}
+NOTES = {
+ 'C08': 'Partial by nature: scheduling and storage-library internals are outside the model; the syntactic loop classifier and the reviewed-site list are trusted.',
+ 'C13': 'Partial: order-crossing trades are not yet inside the Lean model.',
+}
+for _p, _t in CLAIMS.items():
+    PROPS[_p]['claim'] = _t
+    PROPS[_p]['registered'] = True
+    if _p in NOTES: PROPS[_p]['note'] = NOTES[_p]
